@@ -119,6 +119,12 @@ def cases(tier):
                 for g in ("uniform", "geom"):
                     for con in cons:
                         out.append(dict(kind="spline_inf", chains=list(ch), N=N, grid=g, con=list(con)))
+        # linear systems next to the integrator chains: an affine offset (constant / parametric), a gain, a feedback term.
+        # SplineMethod either represents the declared model or refuses it.
+        for model in ("u+1", "u+p", "x2+1", "2u", "u-x", "u+0"):
+            for N in (2, 3):
+                for g in ("uniform", "geom"):
+                    out.append(dict(kind="spline_affine", model=model, N=N, grid=g))
     return out
 
 
@@ -655,12 +661,81 @@ def run_spline_inf(case):
     return dict(violations=vios, evaluations=max(nchk, 1), traces=2, transitions=len(dirs), outcome=explore.sha([case, nchk]), nontrivial=nchk > 0, counts=dict(boundary_points=nchk), sample=case)
 
 
+def run_spline_affine(case):
+    """A linear model that is not a pure integrator chain under SplineMethod: rejected by transcription time, or the
+    sampled trajectories satisfy the DECLARED differential equations identically in time (every state is a polynomial per
+    control interval; its exact derivative on refine=6 samples equals the declared right-hand side at the sampled values)."""
+    import casadi as ca, sys, rockit
+    model, N, g = case["model"], case["N"], case["grid"]
+    tags = ["spline_affine", "model=%s" % model, "N=%d" % N, "grid=%s" % g]
+    vios = []; evals = 0; outcome = "rejected"
+    try:
+        ocp = rockit.Ocp(t0=0.3, T=1.9)
+        if model == "u+p":
+            p = ocp.parameter()
+            ocp.set_value(p, 0.6)
+        u = ocp.control()
+        if model == "x2+1":
+            x1 = ocp.state(); x2 = ocp.state()
+            xs = [x1, x2]
+            ocp.set_der(x1, x2 + 1); ocp.set_der(x2, u)
+            rhs = lambda X, U: [X[1] + 1, U]
+        else:
+            x = ocp.state(); xs = [x]
+            f = {"u+1": lambda X, U: [U + 1], "u+p": lambda X, U: [U + 0.6], "2u": lambda X, U: [2 * U], "u-x": lambda X, U: [U - X[0]], "u+0": lambda X, U: [U]}[model]
+            ocp.set_der(x, u + 1 if model == "u+1" else u + p if model == "u+p" else 2 * u if model == "2u" else u - x if model == "u-x" else u + 0)
+            rhs = f
+        ocp.subject_to(ocp.at_t0(xs[0]) == 0.1)
+        ocp.add_objective(ocp.at_tf((xs[0] - 1) ** 2) + ocp.sum(u ** 2))
+        ocp.solver("ipopt", {"ipopt.print_level": 0, "print_time": False, "ipopt.sb": "yes"})
+        ocp.method(rockit.SplineMethod(N=N, grid=rockit_grid(g)))
+        try:
+            nlp = NL.Nlp(ocp)
+        except Exception as e:
+            fr = core.rockit_frame(sys.exc_info()[2])
+            if fr is None and not isinstance(e, (RuntimeError, AssertionError, AttributeError)):
+                raise
+            return dict(violations=[], evaluations=1, traces=1, transitions=1, outcome="rejected:%s" % model, nontrivial=True, sample=case)
+        outcome = "transcribed"
+        w = NL.generic(nlp.nx, 0, 0, lo=-0.7, hi=1.2)
+
+        def num(e):
+            F = ca.Function("f", [nlp.x, nlp.p], [ca.MX(e)], {"allow_free": True})
+            if not F.has_free():
+                return np.array(F(w, nlp.p0))
+            free = F.free_mx()           # symbols that occur in no row and no objective term
+            F = ca.Function("f", [nlp.x, nlp.p] + free, [ca.MX(e)])
+            return np.array(F(w, nlp.p0, *[nlp.opti.debug.value(s_, nlp.opti.initial()) for s_ in free]))
+        R = 6
+        tt = num(ocp.sample(xs[0], grid="control", refine=R)[0]).reshape(-1)
+        X = [num(ocp.sample(x_, grid="control", refine=R)[1]).reshape(-1) for x_ in xs]
+        U = num(ocp.sample(u, grid="control", refine=R)[1]).reshape(-1)
+        for k in range(N):
+            idx = list(range(k * R, k * R + R))         # the interval's own points (its right end belongs to the next one)
+            tl = tt[idx] - tt[idx[0]]
+            for j, xv in enumerate(X):
+                c = np.polyfit(tl, xv[idx], R - 1)
+                dx = np.polyval(np.polyder(c), tl)
+                want = np.array([rhs([Xv[i] for Xv in X], U[i])[j] for i in idx], dtype=float)
+                evals += 1
+                if not NL.close(dx, want, 1e-6):
+                    vios.append(dict(sig="value:spline:declared-dynamics", tags=tags, detail="model x' = %s transcribed by SplineMethod, but on control interval %d the derivative of state %d is %s while the declared right-hand side at the sampled values is %s" % (model, k, j, np.round(dx[:3], 6), np.round(want[:3], 6))))
+                    break
+            if vios: break
+    except Exception as e:
+        fr = core.rockit_frame(sys.exc_info()[2])
+        if fr is None and not isinstance(e, (RuntimeError, AssertionError, AttributeError)):
+            raise
+        vios.append(dict(sig="exception:spline_affine:%s" % (fr or type(e).__name__), tags=tags, detail="%s: %s" % (type(e).__name__, str(e)[:200])))
+    return dict(violations=vios, evaluations=max(evals, 1), traces=1, transitions=1, outcome="%s:%s" % (outcome, model), nontrivial=True, sample=case)
+
+
 def run_case(case):
-    return {"micro": run_micro, "signal": run_signal, "spline": run_spline, "spline_inf": run_spline_inf}[case["kind"]](case)
+    return {"micro": run_micro, "signal": run_signal, "spline": run_spline, "spline_inf": run_spline_inf, "spline_affine": run_spline_affine}[case["kind"]](case)
 
 
 def describe(tier):
     return dict(
-        rule="(a) full product order 0..4 x N x {uniform, geometric, user function} grids: eval_on_knots at the knots, on refinements 1..5 with/without edges and on arbitrary sub-grids, Greville points, bspline_derivative vs an independent Cox-de Boor (scipy BSpline on the clamped knot vector) - basis matrices compared entry-wise, so every coefficient vector is decided; (b) order x N x grid x {SplineMethod, MS, DC} x width: a B-spline parameter with known coefficients and its der / der(der) sampled on every grid option vs scipy on the physical knots; B-spline variable: gist coefficients at Greville points reproduce all refinements (SplineMethod) / samples lie on one degree-d spline with N+d degrees of freedom across refinements (sampling methods); (c) SplineMethod on every integrator-chain system from a 10-element alphabet (lengths 1..4, mixed, vector states) x N x grid: chain dynamics as exact Taylor identities on refine=4 samples, refined time stamps, path-constraint rows at every refined point (refine 1..3), and MS's dynamic rows vanish / objectives agree at the sampled spline trajectory; (d) grid='inf' constraints (state / last chain member / control, with constant offsets, one- and two-sided) under SplineMethod: at the first crossing of the constraint rows' boundary along every alphabet ray the expression satisfies its bounds on a refine=12 sample",
+        rule="(a) full product order 0..4 x N x {uniform, geometric, user function} grids: eval_on_knots at the knots, on refinements 1..5 with/without edges and on arbitrary sub-grids, Greville points, bspline_derivative vs an independent Cox-de Boor (scipy BSpline on the clamped knot vector) - basis matrices compared entry-wise, so every coefficient vector is decided; (b) order x N x grid x {SplineMethod, MS, DC} x width: a B-spline parameter with known coefficients and its der / der(der) sampled on every grid option vs scipy on the physical knots; B-spline variable: gist coefficients at Greville points reproduce all refinements (SplineMethod) / samples lie on one degree-d spline with N+d degrees of freedom across refinements (sampling methods); (c) SplineMethod on every integrator-chain system from a 10-element alphabet (lengths 1..4, mixed, vector states) x N x grid: chain dynamics as exact Taylor identities on refine=4 samples, refined time stamps, path-constraint rows at every refined point (refine 1..3), and MS's dynamic rows vanish / objectives agree at the sampled spline trajectory; (d) grid='inf' constraints (state / last chain member / control, with constant offsets, one- and two-sided) under SplineMethod: at the first crossing of the constraint rows' boundary along every alphabet ray the expression satisfies its bounds on a refine=12 sample; (e) linear models that are not pure integrator chains (constant / parametric affine offset in the lowest or an upper member, a gain, a feedback term) under SplineMethod: rejected by transcription time, or the exact derivative of every sampled state polynomial equals the declared right-hand side on every control interval",
         bound="order<=4, N<=%d" % (8,),
         assumptions=["scipy.interpolate.BSpline is the independent Cox-de Boor oracle", "SplineMethod cases need the networkx wheel"])
